@@ -3,6 +3,7 @@ from . import core
 
 TRANSLATORS = [
     ("Grammar.lean", ["gramdump"]),
+    ("MemoryFacts.lean", ["memfacts"]),
 ]
 
 
